@@ -57,20 +57,82 @@ func c03DenyPathAs(c *Ctx, rule string) {
 	}
 }
 
-// isAttrGet: v is <identity from ctxVal>.GetAttribute(const name); returns the call.
-func isAttrGet(v ssa.Value, name string, ctxVal ssa.Value) bool {
-	v = strip(v)
-	if ta, ok := v.(*ssa.TypeAssert); ok {
+// attrGetRaw: v is x.GetAttribute(name) (possibly type-asserted, plain or comma-ok), or the result
+// of a first-party helper (depth <= 2) every non-zero return of which is that for the helper's own
+// parameters; returns the identity operand and the name operand in the frame of v's function.
+func attrGetRaw(v ssa.Value, depth int) (id, name ssa.Value, ok bool) {
+	v = strip(unspill(v))
+	if ex, isEx := v.(*ssa.Extract); isEx && ex.Index == 0 {
+		if ta, isTA := ex.Tuple.(*ssa.TypeAssert); isTA {
+			v = strip(ta.X)
+		}
+	}
+	if ta, isTA := v.(*ssa.TypeAssert); isTA {
 		v = strip(ta.X)
 	}
-	call, ok := v.(*ssa.Call)
-	if !ok || !call.Call.IsInvoke() || call.Call.Method.Name() != "GetAttribute" {
+	idx := 0
+	var call *ssa.Call
+	switch x := v.(type) {
+	case *ssa.Call:
+		call = x
+	case *ssa.Extract:
+		call, _ = x.Tuple.(*ssa.Call)
+		idx = x.Index
+	}
+	if call == nil {
+		return nil, nil, false
+	}
+	if call.Call.IsInvoke() {
+		if call.Call.Method.Name() != "GetAttribute" || idx != 0 {
+			return nil, nil, false
+		}
+		return call.Call.Value, call.Call.Args[0], true
+	}
+	h := call.Call.StaticCallee()
+	if h == nil || !IsFirstParty(h) || h.Blocks == nil || depth >= 2 {
+		return nil, nil, false
+	}
+	up := func(x ssa.Value) ssa.Value {
+		if p, isP := strip(x).(*ssa.Parameter); isP {
+			for j, q := range h.Params {
+				if q == p && j < len(call.Call.Args) {
+					return call.Call.Args[j]
+				}
+			}
+		}
+		return x
+	}
+	for _, r := range returnsOf(h) {
+		if idx >= len(r.Results) {
+			return nil, nil, false
+		}
+		rv0 := strip(unspill(r.Results[idx]))
+		if k, isC := rv0.(*ssa.Const); isC && (k.Value == nil || isZeroConst(k)) {
+			continue
+		}
+		i2, n2, ok2 := attrGetRaw(rv0, depth+1)
+		if !ok2 {
+			return nil, nil, false
+		}
+		i2, n2 = up(i2), up(n2)
+		if id != nil && (strip(id) != strip(i2) || strip(name) != strip(n2)) {
+			return nil, nil, false
+		}
+		id, name = i2, n2
+	}
+	return id, name, id != nil
+}
+
+// isAttrGet: v is <identity from ctxVal>.GetAttribute(const name), directly or through a helper.
+func isAttrGet(v ssa.Value, name string, ctxVal ssa.Value) bool {
+	idv, nv, ok := attrGetRaw(v, 0)
+	if !ok {
 		return false
 	}
-	if s, ok := constString(call.Call.Args[0]); !ok || s != name {
+	if s, ok := constString(nv); !ok || s != name {
 		return false
 	}
-	id, ok := strip(rv(strip(call.Call.Value))).(*ssa.Call)
+	id, ok := strip(rv(strip(idv))).(*ssa.Call)
 	if !ok {
 		return false
 	}
@@ -300,6 +362,21 @@ func c04SourceAs(c *Ctx, rule string) {
 				return ok, why
 			}
 			v := vs.v
+			// strings.TrimSpace of the element is the element as far as the address is concerned
+			if tc, ok := strip(v).(*ssa.Call); ok && calleeName(tc) == "strings.TrimSpace" {
+				v = strip(arg(tc, 0))
+			}
+			// first element by strings.Cut(header, ","): the text before the first comma
+			if ex, ok := v.(*ssa.Extract); ok && ex.Index == 0 {
+				if ct, ok := ex.Tuple.(*ssa.Call); ok && calleeName(ct) == "strings.Cut" && isHdr(arg(ct, 0)) {
+					if sep, ok := constString(arg(ct, 1)); ok && sep == "," {
+						siteXFF = vs.at
+						ok2, why := guarded(func(m func(ssa.Value) bool) Guard { return GNeq(m, isEmpty) })
+						c.Check(ok2, rule, key+" xff-site", vs.at.Pos(), "clientIp = the text before the first comma of X-Forwarded-For, only when the header is non-empty", "XFF site "+why)
+						continue
+					}
+				}
+			}
 			if a, ok := loadAddr(v); ok {
 				if ia, ok := a.(*ssa.IndexAddr); ok {
 					idx, isC := constInt(ia.Index)
@@ -307,6 +384,30 @@ func c04SourceAs(c *Ctx, rule string) {
 					if isC && idx == 0 && isSplit && calleeName(sp) == "strings.Split" && isHdr(arg(sp, 0)) {
 						if sep, ok := constString(arg(sp, 1)); ok && sep == "," {
 							siteXFF = vs.at
+							// the elements of the split may be rewritten in place only by strings.TrimSpace
+							// of the same element: anything else (port stripping, case folding, a helper)
+							// makes the recorded address differ from the element the header carries
+							for _, ref := range *sp.Referrers() {
+								ea, ok := ref.(*ssa.IndexAddr)
+								if !ok {
+									continue
+								}
+								for _, r2 := range *ea.Referrers() {
+									st, ok := r2.(*ssa.Store)
+									if !ok || st.Addr != ssa.Value(ea) {
+										continue
+									}
+									fine := false
+									if tc, ok := strip(st.Val).(*ssa.Call); ok && calleeName(tc) == "strings.TrimSpace" {
+										if la, ok := loadAddr(strip(arg(tc, 0))); ok {
+											if ia2, ok := la.(*ssa.IndexAddr); ok && strip(ia2.X) == ssa.Value(sp) && ia2.Index == ea.Index {
+												fine = true
+											}
+										}
+									}
+									c.Check(fine, rule, key+" xff-elements", st.Pos(), "a forwarded-for element is rewritten in place only as strings.TrimSpace of itself", "a forwarded-for element is rewritten by something other than strings.TrimSpace of itself: the recorded client address is no longer the element the header carries")
+								}
+							}
 							ok2, why := guarded(func(m func(ssa.Value) bool) Guard { return GNeq(m, isEmpty) })
 							c.Check(ok2, rule, key+" xff-site", vs.at.Pos(), "clientIp = element 0 of Split(X-Forwarded-For, \",\"), only when the header is non-empty", "XFF site "+why)
 							continue
